@@ -76,6 +76,30 @@ class Trace(tuple):
         return Trace(tuple(sorted(other, key=repr)) + tuple(self))
 
 
+def norm_tag(t):
+    """call-site tag without the argument-origin suffixes: 'call:f@12(call:g@3).0' -> 'call:f@12.0'"""
+    if not t or '(' not in t or '@' not in t:
+        return t
+    out, i, n = [], 0, len(t)
+    while i < n:
+        ch = t[i]
+        if ch == '(' and out and out[-1].isdigit() and '@' in ''.join(out[-12:]):
+            depth = 0
+            while i < n:
+                if t[i] == '(':
+                    depth += 1
+                elif t[i] == ')':
+                    depth -= 1
+                    if depth == 0:
+                        i += 1
+                        break
+                i += 1
+            continue
+        out.append(ch)
+        i += 1
+    return ''.join(out)
+
+
 def tag_of(v):
     v = strip(v)
     return v.tag if isinstance(v, U) else None
@@ -300,7 +324,7 @@ Outcome.__new__.__defaults__ = ((),)
 
 class Explorer:
     def __init__(self, facts, inline_depth=3, budget=200000, no_inline=(), force_domain=None,
-                 observe=(), models=None, loop_visits=2, inline_only=None, watch=(), model_hook=None, time_budget=60.0, trace=False, tag_named=False):
+                 observe=(), models=None, loop_visits=2, inline_only=None, watch=(), model_hook=None, time_budget=60.0, trace=False, tag_named=False, const_params=None):
         self.facts = facts
         self.inline_depth = inline_depth
         self.budget = budget
@@ -315,6 +339,7 @@ class Explorer:
         self.model_hook = model_hook
         self.trace = trace
         self.tag_named = tag_named
+        self.const_params = const_params or {}
         import time as _t
         self.deadline = _t.time() + time_budget
         self.memo = {}
@@ -346,6 +371,8 @@ class Explorer:
                 if len(vals) == 1:
                     return vals.pop()
             return TOP
+        if 'param' in k and k['param'] in self.const_params:
+            return I(self.const_params[k['param']])
         if k.get('zst') and k['ty'] == '()':
             return T(())
         return TOP
@@ -993,7 +1020,12 @@ class Explorer:
             self._inline(crec, args, ev, cont, depth, name)
             return
         if self.trace:
-            cont(sym('call:%s@%s' % (name.rsplit('::', 1)[-1], t[5])), ev | {('call', name)})
+            ats = [tag_of(a) for a in args]
+            ats = [x for x in ats if x and x.startswith('call:')]
+            tg = 'call:%s@%s' % (name.rsplit('::', 1)[-1], t[5])
+            if ats and sum(len(x) for x in ats) < 400:
+                tg += '(%s)' % ','.join(ats)
+            cont(sym(tg), ev | {('call', name)})
         else:
             cont(TOP, ev | {('call', name)})
 
